@@ -26,7 +26,9 @@ RULE = ("plans over a small alphabet of targets (duplicates, ids ordered around 
         "non-trivial when it merges duplicates, blocks an op, clamps, scales, drops a tail or uses a non-default input shape; distinct by canonical JSON. "
         "HISTORY stream: 2-4 real t4_filter calls in one process on the SAME ctx/config/state/plan objects, edited in place between calls (caps, "
         "cooldown map, last-use turns, turn id, deltas); each call checked against the model and all monitors on its current argument values and "
-        "against the same call on freshly built objects")
+        "against the same call on freshly built objects. Input shapes are enumerated from the accessor functions' own branches "
+        "(_get_cfg holders, _get_plan_ops/_get_plan_deltas, _get_last_turn_map: holder x meta x cooldowns present/None/missing/non-dict, _get_turn, "
+        "_get_op_kind); purity = deep snapshot (types, container identities, key sets and key order) of EVERY argument before vs after every call")
 ASSUMPTIONS = [
     "delta values are finite floats/ints (NaN/inf deltas are outside 'magnitudes'; finite inputs never produce NaN inside the pipeline)",
     "target kind/id/attr and op kinds are str; `str()` of exotic kind objects is not modelled",
@@ -114,7 +116,37 @@ def op_kind(op: dict) -> str:
     f = op["form"]
     if f in ("dict", "obj"):
         return op["kind"]
+    if f == "dictnone":
+        return "None"  # str(op.get("kind", "")) of an explicit None
     return ""  # objnone (kind=None), dictnokind, other (an int)
+
+
+# State shapes, one per branch of `_get_last_turn_map`: "<holder>/<meta>/<cooldowns>" with
+#   holder    attr (getattr(state, "meta")) | dict (state.get("meta")) | none | other (an int)
+#   meta      obj | dict | none (present, None) | missing
+#   cooldowns map | none (present, None) | missing | notdict (a list)
+# Old names are kept as aliases (corpus / recorded replays).
+STATE_ALIAS = {"obj_obj": "attr/obj/map", "obj_dict": "attr/dict/map", "dict_dict": "dict/dict/map", "dict_obj": "dict/obj/map",
+               "nometa": "attr/missing/-", "cd_notdict": "attr/obj/notdict", "state_none": "none/-/-"}
+STATE_NEW = [f"{h}/{m}/{c}" for h in ("attr", "dict") for m in ("obj", "dict") for c in ("none", "missing", "notdict")] + \
+            ["attr/none/-", "dict/none/-", "dict/missing/-", "other/-/-", "attr/dict/map+", "dict/dict/missing+"]
+
+
+def state_shape(sf: str) -> Tuple[str, str, str, bool]:
+    sf = STATE_ALIAS.get(sf, sf)
+    extra = sf.endswith("+")  # other keys around the cooldown entry (key order / key set is part of the snapshot)
+    h, m, c = sf.rstrip("+").split("/")
+    return h, m, c, extra or sf not in STATE_ALIAS.values()
+
+
+def last_reachable(sf: str) -> bool:
+    h, m, c, _ = state_shape(sf)
+    return h in ("attr", "dict") and m in ("obj", "dict") and c == "map"
+
+
+# Plan shapes, one per branch of `_get_plan_ops` / `_get_plan_deltas`
+PLAN_NO_DELTAS = ("none", "nodeltas", "dict_nonevals", "obj_nodeltas", "other", "dict_empty")
+PLAN_NO_OPS = ("none", "noops", "dict_nonevals", "dict_noops", "other", "dict_empty")
 
 
 def eff_cfg(case: dict) -> Tuple[float, float, int, Dict[str, int]]:
@@ -129,7 +161,7 @@ def eff_cfg(case: dict) -> Tuple[float, float, int, Dict[str, int]]:
 
 
 def eff_last(case: dict) -> List[list]:
-    if case["state_form"] in ("nometa", "cd_notdict", "state_none"):
+    if not last_reachable(case["state_form"]):
         return []
     out = []
     for kind, v in case["last"]:
@@ -151,8 +183,8 @@ def eff_turns(case: dict) -> List[Optional[int]]:
 
 def model_input(case: dict) -> dict:
     l2, nov, k, cds = eff_cfg(case)
-    ds = [] if case["plan_form"] in ("none", "nodeltas") else case["deltas"]
-    ops = [] if case["plan_form"] in ("none", "noops") else case["ops"]
+    ds = [] if case["plan_form"] in PLAN_NO_DELTAS else case["deltas"]
+    ops = [] if case["plan_form"] in PLAN_NO_OPS else case["ops"]
     return {
         "deltas": [[cps(d["kind"]), cps(d["id"]), cps(d["attr"]), f2b(float(vs_decode(d["delta"]))), d["op_idx"], d["idx"]]
                    for d in ds],
@@ -190,6 +222,8 @@ def build_args(case: dict):
             ops.append(_Obj(kind=None))
         elif f == "dictnokind":
             ops.append({"payload": 1})
+        elif f == "dictnone":
+            ops.append({"kind": None})
         else:
             ops.append(7)
     pf = case["plan_form"]
@@ -203,12 +237,30 @@ def build_args(case: dict):
         plan = {"ops": ops}
     elif pf == "noops":
         plan = _Obj(deltas=deltas, ops=None)
+    elif pf == "dataclass":
+        from clematis.engine.types import Plan
+        plan = Plan(version="t3-plan-v1", ops=ops, deltas=deltas)
+    elif pf == "dict_nonevals":
+        plan = {"ops": None, "deltas": None}
+    elif pf == "dict_noops":
+        plan = {"deltas": deltas, "note": "x"}
+    elif pf == "dict_empty":
+        plan = {}
+    elif pf == "obj_nodeltas":
+        plan = _Obj(ops=ops)
+    elif pf == "other":
+        plan = 7
     else:
         plan = None
     # config
     cf = case["cfg_form"]
     if cf == "nondict":
-        cfg_obj = _Obj(t4=None) if case.get("cfg_variant", 0) == 0 else _Obj()
+        cv = case.get("cfg_variant", 0)
+        # every holder `_get_cfg` does NOT accept falls back to the defaults: t4=None, no t4 attribute, a dict-style
+        # config (getattr on a dict finds no "t4"), a non-dict t4 object, and (below) a ctx without `config`
+        cfg_obj = (_Obj(t4=None) if cv == 0 else _Obj() if cv == 1 else
+                   {"t4": {"novelty_cap_per_node": 0.01, "churn_cap_edges": 0}} if cv == 3 else
+                   _Obj(t4=_Obj(novelty_cap_per_node=0.01, churn_cap_edges=0, cooldowns={"EditGraph": 9})) if cv == 4 else _Obj())
     else:
         t4: Dict[str, Any] = {}
         c = case["cfg"]
@@ -222,26 +274,40 @@ def build_args(case: dict):
         t4.update(case.get("cfg_extra", {}))
         cfg_obj = _Obj(t4=t4)
     ctx = _Obj(config=cfg_obj)
+    if cf == "nondict" and case.get("cfg_variant", 0) == 2:
+        ctx = _Obj(other="x")  # no `config` attribute at all
     for name, v in case["turn"]:
         setattr(ctx, name, vs_decode(v))
     # state
     last = {kind: vs_decode(v) for kind, v in case["last"]}
-    sf = case["state_form"]
-    if sf == "obj_obj":
-        state: Any = _Obj(meta=_Obj(cooldowns=last))
-    elif sf == "obj_dict":
-        state = _Obj(meta={"cooldowns": last})
-    elif sf == "dict_dict":
-        state = {"meta": {"cooldowns": last}}
-    elif sf == "dict_obj":
-        state = {"meta": _Obj(cooldowns=last)}
-    elif sf == "nometa":
-        state = _Obj()
-    elif sf == "cd_notdict":
-        state = _Obj(meta=_Obj(cooldowns=[1, 2]))
-    else:
-        state = None
+    state = build_state(case["state_form"], last)
     return ctx, state, plan
+
+
+def build_state(sf: str, last: Dict[str, Any]) -> Any:
+    h, m, c, extra = state_shape(sf)
+    if h == "none":
+        return None
+    if h == "other":
+        return 7
+    meta: Any = None
+    if m in ("obj", "dict"):
+        fields: Dict[str, Any] = {"agent": "A"} if extra else {}
+        if c == "map":
+            fields["cooldowns"] = last
+        elif c == "none":
+            fields["cooldowns"] = None
+        elif c == "notdict":
+            fields["cooldowns"] = [1, 2]
+        if extra:
+            fields["seen"] = [1]
+        meta = _Obj(**fields) if m == "obj" else fields
+    top: Dict[str, Any] = {"name": "s"} if extra else {}
+    if m != "missing":
+        top["meta"] = meta
+    if extra:
+        top["version"] = 3
+    return _Obj(**top) if h == "attr" else top
 
 
 def snap(x: Any) -> Any:
@@ -250,13 +316,22 @@ def snap(x: Any) -> Any:
         return ("f", f2b(x))
     if isinstance(x, (bool, int, str)) or x is None:
         return (type(x).__name__, x)
+    # containers: type, identity (an equal copy put in place of the caller's container is a mutation too),
+    # and the contents in order (key sets and key order of dicts / attribute dicts included)
     if isinstance(x, (list, tuple)):
-        return (type(x).__name__, [snap(v) for v in x])
+        return (type(x).__name__, id(x), [snap(v) for v in x])
     if isinstance(x, dict):
-        return ("dict", [(snap(k), snap(v)) for k, v in x.items()])
+        return ("dict", id(x), [(snap(k), snap(v)) for k, v in x.items()])
     if hasattr(x, "__dict__"):
-        return (type(x).__name__, [(k, snap(v)) for k, v in x.__dict__.items()])
+        return (type(x).__name__, id(x), [(k, snap(v)) for k, v in x.__dict__.items()])
     return ("repr", repr(x))
+
+
+def snap_diff(before: Any, after: Any) -> Optional[str]:
+    if before == after:
+        return None
+    from harness.core import _canon, first_diff
+    return first_diff(_canon(before), _canon(after)).replace("impl=", "before=").replace("model=", "after=")[:400]
 
 
 def canon_result(res: Any) -> dict:
@@ -362,7 +437,7 @@ class T4Comp(Component):
         nops = rng.choice([0, 1, 2, 3, 5])
         ops = []
         for _ in range(nops):
-            f = rng.choices(["dict", "obj", "objnone", "dictnokind", "other"], [45, 40, 5, 5, 5])[0]
+            f = rng.choices(["dict", "obj", "objnone", "dictnokind", "other", "dictnone"], [45, 38, 5, 5, 4, 3])[0]
             kind = rng.choice(KINDS[:3] + KINDS) if rng.random() < 0.95 else ""
             ops.append({"form": f, "kind": kind})
         # magnitudes
@@ -479,15 +554,19 @@ class T4Comp(Component):
                         del cfg[kk]
             elif rr < 0.22:
                 cfg_form = "nondict"
-                case["cfg_variant"] = rng.choice([0, 1])
+                case["cfg_variant"] = rng.choice([0, 1, 2, 3, 4])
             elif rr < 0.26:
                 cfg_form = "partial"
                 cfg["cooldowns"] = [1]
         case["cfg_form"] = cfg_form
         case["cfg"] = cfg
-        case["plan_form"] = rng.choices(["dict", "obj", "tuple", "none", "nodeltas", "noops"], [45, 40, 5, 3, 3, 4])[0]
-        case["state_form"] = rng.choices(["obj_obj", "obj_dict", "dict_dict", "dict_obj", "nometa", "cd_notdict", "state_none"],
-                                         [40, 15, 15, 10, 7, 6, 7])[0]
+        case["plan_form"] = rng.choices(["dict", "obj", "dataclass", "tuple", "none", "nodeltas", "noops", "dict_nonevals", "dict_noops",
+                                         "dict_empty", "obj_nodeltas", "other"], [36, 30, 12, 5, 2, 3, 3, 2, 2, 1, 2, 2])[0]
+        if rng.random() < 0.7:
+            case["state_form"] = rng.choices(["obj_obj", "obj_dict", "dict_dict", "dict_obj", "nometa", "cd_notdict", "state_none"],
+                                             [40, 15, 15, 10, 7, 6, 7])[0]
+        else:
+            case["state_form"] = rng.choice(STATE_NEW)
         names = ["turn_id", "turn", "current_turn"]
         rr = rng.random()
         if rr < 0.6:
@@ -527,19 +606,21 @@ class T4Comp(Component):
     def impl(self, case: dict) -> Any:
         from clematis.engine.stages.t4 import t4_filter
         ctx, state, plan = build_args(case)
-        before = snap((ctx, state, plan))
-        res = t4_filter(ctx, state, "T1", {"t2": 1}, plan, "utter")
-        after = snap((ctx, state, plan))
+        t1_arg, t2_arg, utter_arg = ["T1"], {"t2": [1]}, "utter"
+        args = [ctx, state, t1_arg, t2_arg, plan, utter_arg]  # EVERY argument is snapshotted (one holder: ids are compared)
+        before = snap(args)
+        res = t4_filter(ctx, state, t1_arg, t2_arg, plan, utter_arg)
+        after = snap(args)
         out = canon_result(res)
         caps = res.metrics.get("caps", {})
-        io: Dict[str, Any] = {"out": out, "pure": before == after,
+        io: Dict[str, Any] = {"out": out, "pure": before == after, "pure_diff": snap_diff(before, after),
                               "caps": [f2b(float(caps.get("delta_norm_cap_l2"))), f2b(float(caps.get("novelty_cap_per_node"))),
                                        int(caps.get("churn_cap_edges"))]}
         # determinism + independence from the listing order, on the real code
         res2 = t4_filter(*build_args(case)[:2], None, None, build_args(case)[2], None)
         io["repeat_same"] = canon_result(res2) == out
         io["perm_diff"] = None
-        if case["plan_form"] in ("dict", "obj", "tuple"):
+        if case["plan_form"] in ("dict", "obj", "tuple", "dataclass"):
             for p in perms_of(len(case["deltas"])):
                 c2 = dict(case, deltas=[case["deltas"][j] for j in p])
                 c_ctx, c_state, c_plan = build_args(c2)
@@ -581,7 +662,7 @@ class T4Comp(Component):
         res = []
         l2, nov, k, _ = eff_cfg(case)
         out = impl_out["out"]
-        res.append(("pure", bool(impl_out["pure"]), "t4_filter mutated one of its arguments"))
+        res.append(("pure", bool(impl_out["pure"]), "t4_filter mutated one of its arguments: " + str(impl_out.get("pure_diff"))))
         res.append(("deterministic", bool(impl_out["repeat_same"]), "same arguments (other t1/t2/utter) gave a different result"))
         pd = impl_out["perm_diff"]
         if pd is not None:
@@ -820,14 +901,12 @@ def float_gap_probe(ctx: Ctx, n: int) -> None:
 HIST_COMP = "t4.history"
 
 
-def _last_map_obj(state: Any, sf: str) -> Dict[str, Any]:
-    if sf == "obj_obj":
-        return state.meta.cooldowns
-    if sf == "obj_dict":
-        return state.meta["cooldowns"]
-    if sf == "dict_dict":
-        return state["meta"]["cooldowns"]
-    return state["meta"].cooldowns  # dict_obj
+def _last_map_obj(state: Any, sf: str) -> Optional[Dict[str, Any]]:
+    if not last_reachable(sf):
+        return None
+    h, m, _c, _x = state_shape(sf)
+    meta = state.meta if h == "attr" else state["meta"]
+    return meta.cooldowns if m == "obj" else meta["cooldowns"]
 
 
 def mutate_in_place(objs, prev: dict, new: dict) -> None:
@@ -860,11 +939,12 @@ def mutate_in_place(objs, prev: dict, new: dict) -> None:
     for n, v in new["turn"]:
         setattr(ctx, n, vs_decode(v))
     m = _last_map_obj(state, new["state_form"])
-    m.clear()
-    m.update({kind: vs_decode(v) for kind, v in new["last"]})
+    if m is not None:
+        m.clear()
+        m.update({kind: vs_decode(v) for kind, v in new["last"]})
     if new["deltas"] != prev["deltas"] or new["ops"] != prev["ops"]:
         _c, _s, p2 = build_args(new)
-        if new["plan_form"] == "dict":
+        if isinstance(plan, dict):
             plan["deltas"][:] = p2["deltas"]
             plan["ops"][:] = p2["ops"]
         else:
@@ -881,8 +961,9 @@ def gen_history(rng: random.Random) -> dict:
     if base["cfg_form"] == "nondict":
         base["cfg_form"] = "raw"
         base.pop("cfg_variant", None)
-    base["plan_form"] = rng.choice(["dict", "obj"])
-    base["state_form"] = rng.choice(["obj_obj", "obj_obj", "obj_dict", "dict_dict", "dict_obj"])
+    base["plan_form"] = rng.choice(["dict", "obj", "dataclass"])
+    base["state_form"] = rng.choice(["obj_obj", "obj_obj", "obj_dict", "dict_dict", "dict_obj", "attr/dict/map+",
+                                     "dict/dict/missing", "attr/dict/missing", "dict/dict/none", "dict/dict/missing+", "attr/obj/missing"])
     if not base["turn"]:
         base["turn"] = [["turn_id", {"int": 0}]]
     hist = [base]
@@ -954,7 +1035,7 @@ def run_history(hcase: dict) -> List[dict]:
             res = t4_filter(objs[0], objs[1], None, None, objs[2], None)
             after = snap(objs)
             caps = res.metrics.get("caps", {})
-            io: Any = {"out": canon_result(res), "pure": before == after,
+            io: Any = {"out": canon_result(res), "pure": before == after, "pure_diff": snap_diff(before, after),
                        "caps": [f2b(float(caps.get("delta_norm_cap_l2"))), f2b(float(caps.get("novelty_cap_per_node"))),
                                 int(caps.get("churn_cap_edges"))],
                        "repeat_same": True, "perm_diff": None}
